@@ -87,7 +87,10 @@ def run_case(case, ctx):
 
     def run(cfg):
         nonlocal used_disk
-        res = S.run_stream_case({"cfg": cfg, "passes": 1, "observe": None})
+        run.count += 1
+        res = S.run_stream_case(S.decorate(
+            {"cfg": cfg, "passes": 1, "observe": None,
+             "rseed": run.count}, run.count + n, 0, frac=5))
         r = S.result_of(res, {"cfg": cfg, "passes": 1}, False)
         viols.extend(r["violations"])
         for k, v in r["evals"].items():
@@ -99,6 +102,8 @@ def run_case(case, ctx):
                 used_disk += 1
             return stream_cost(res.ex, costs), res.ex
         return None, None
+
+    run.count = 0
 
     def ck(rule, cond, msg, **detail):
         evals["C07." + rule] = evals.get("C07." + rule, 0) + 1
